@@ -23,10 +23,23 @@ LOADERS = {"__init__", "_load_init", "_load", "_load_hex", "_parse_bytes", "_par
 
 
 def _is_decrement(value, cont) -> bool:
-    """value == <read of same container> - x"""
+    """value == <read of same container> - x, possibly pinned: max(<read> - x, 0)"""
+    if value[0] == "call" and value[1] == ("g", "max") and len(value[2]) == 2:
+        inner = [x for x in value[2] if not (x[0] == "c")]
+        if len(inner) == 1:
+            value = inner[0]
     if value[0] == "bin" and value[1] == "-":
         a = value[2]
         return a[0] == "sub" and outer_field(a[1]) == outer_field(cont)
+    return False
+
+
+def _clamped_decrement(value, cont) -> bool:
+    """value == cell - min(x, cell) for one and the same read of the cell: never below 0"""
+    v = strip_epochs(value)
+    if v[0] == "bin" and v[1] == "-" and v[2][0] == "sub" and outer_field(v[2][1]) == outer_field(cont):
+        m = v[3]
+        return m[0] == "call" and m[1] == ("g", "min") and any(strip_epochs(x) == v[2] for x in m[2])
     return False
 
 
@@ -90,9 +103,10 @@ def check(prog, rep, tier):
                 if not unsigned and (iv[0] is None or iv[0] < rng[0]):
                     ok = False
                     why = f"lower bound {fmt_iv(iv)} below {fmt_iv(rng)}"
-                if unsigned and (iv[0] is None or iv[0] < 0) and not _is_decrement(e.value, e.cont):
+                if unsigned and (iv[0] is None or iv[0] < 0) and not _clamped_decrement(e.value, e.cont):
                     ok = False
-                    why = f"lower bound {fmt_iv(iv)} below 0"
+                    why = f"lower bound {fmt_iv(iv)} below 0" + (": the cell is lowered by an amount that is bounded by the cells as read before the loop, not by this cell as it is now "
+                                                                   "(two hashes selecting the same cell lower it twice)" if _is_decrement(e.value, e.cont) else "")
                 k = (f.qualname, id(e.node))
                 site_ok[k] = site_ok.get(k, True) and ok
                 site_ev.setdefault(k, (e, iv, rng, why))
@@ -100,7 +114,10 @@ def check(prog, rep, tier):
                     site_ev[k] = (e, iv, rng, why)
                 # pinned cell
                 if unsigned and _is_decrement(e.value, e.cont):
-                    rd = e.value[2]
+                    dv = e.value
+                    if dv[0] == "call":
+                        dv = [x for x in dv[2] if x[0] != "c"][0]
+                    rd = dv[2]
                     riv = Intervals(conds_at(p, e), params, crange, field_range).iv(rd)
                     pk = ("pin",) + k
                     good = riv[1] is not None and riv[1] < rng[1]
@@ -185,9 +202,9 @@ def check(prog, rep, tier):
                 if lo_needed is not None:
                     ok = ok and iv[0] is not None and iv[0] >= lo_needed
                 elif (iv[0] is None or iv[0] < 0):
-                    # unsigned total: lower bound only waived for an explicit decrement of the previous total
-                    dec = v[0] == "bin" and v[1] == "-" and v[2][0] == "f" and v[2][2] == tot_field
-                    ok = ok and dec
+                    # unsigned total: it is packed into an unsigned footer slot, so it must be pinned at 0 (max(total - x, 0)); a bare
+                    # decrement can take the estimate a union left there below 0, after which the structure cannot be exported
+                    ok = False
                 tot_ok = ok if tot_ok is None else (tot_ok and ok)
                 if not ok and bad_info is None:
                     bad_info = (v, iv, p)
@@ -211,6 +228,12 @@ from ..selftest import Mutant, del_stmt, insert_stmt, replace_expr, replace_stmt
 FILES = ["blooms/countingbloom.py", "countminsketch/countminsketch.py"]
 _CB, _CM = "blooms/countingbloom.py", "countminsketch/countminsketch.py"
 MUTANTS = [
+    Mutant("D17 re-introduced: counting remove_alt lowers the cell by the unclamped amount", _CB,
+           replace_stmt("CountingBloomFilter", "remove_alt", "self._bloom[k] -= min(to_remove, self._bloom[k])", "self._bloom[k] -= to_remove"), rule="C16.cell"),
+    Mutant("D18 re-introduced: counting remove_alt lets the total go below 0", _CB,
+           replace_stmt("CountingBloomFilter", "remove_alt", "self.elements_added = max(self.elements_added - to_remove, 0)", "self.elements_added -= to_remove"), rule="C16.total"),
+    Mutant("counting remove_alt clamps the cell with max(cell - amount, 0) (same meaning)", _CB,
+           replace_stmt("CountingBloomFilter", "remove_alt", "self._bloom[k] -= min(to_remove, self._bloom[k])", "self._bloom[k] = max(self._bloom[k] - to_remove, 0)"), expect="silent"),
     Mutant("count-min remove: total pinned one above the lower limit", _CM, replace_stmt("CountMinSketch", "remove_alt", "self.__elements_added = INT64_T_MIN", "self.__elements_added = INT64_T_MIN + 1"), rule="C16.saturation-limit"),
     Mutant("count-min add: cell pinned at 2**31 - 2", _CM, replace_stmt("CountMinSketch", "add_alt", "self._bins[idx] = INT32_T_MAX", "self._bins[idx] = INT32_T_MAX - 1"), rule="C16."),
     Mutant("D3 re-introduced: clamp test on a snapshot taken before the loop", _CB,
